@@ -234,7 +234,15 @@ def _prune(keep, maxn=8):
             continue
         n += 1
         p = os.path.join(CACHE, e)
-        if n >= maxn or (e.startswith("cmiv-dump-") and time.time() - os.path.getmtime(p) > 3600):
+        try:
+            age = time.time() - os.path.getmtime(p)
+        except OSError:
+            continue
+        # never touch an entry that was used or is being written in the last 20 minutes: a concurrent run (another check,
+        # a mutant of the sensitivity corpus) may be reading it
+        if age < 1200:
+            continue
+        if n >= maxn or (e.startswith("cmiv-dump-") and age > 3600):
             shutil.rmtree(p, ignore_errors=True)
 
 
